@@ -6,7 +6,17 @@ import H3.Spec.Dyn
     Per op three tokens: status (with `!cap`/`!cnt`/`!evi` monitor marks), detail, state marks
     (`~20c`: the section to be decoded was encoded under another capacity than the decoder's; `~20d`:
     the encoder has evicted an entry the decoder has not received; the harness evaluates the same
-    predicates on the real state, the projection renders them the same way).
+    predicates on the real state, the projection renders them the same way; `~blk<n>`: `n` streams could become
+    blocked (unacknowledged section with Required Insert Count above the encoder's known received count) and `n`
+    exceeds the blocked-stream limit — observation O-20e, RFC 9204 2.1.2, not part of C20's text: the oracle has no
+    opinion on state marks).
+
+    `denc:<k>@<j>.<m>,…` is `denc:<k>` with the bytes in a `Buf` of several chunks: one cut per `<j>.<m>`, `j` =
+    0-based index of an instruction of THIS delivery, `m = 0` the boundary in front of it, `m ≥ 1` inside it (the
+    harness picks byte offset `1 + (m-1) mod (len-1)`; an instruction of one byte cannot be cut).  Model:
+    `H3.Dyn.stepCut` — a whole delivery of the instructions in front of the first one with a cut inside it; when
+    that is not all of them the status is `X:stall#D-20f`, detail `left=i<handed over, not processed>`, and the
+    oracle (which wants `X:ok`) counts only the processed ones as received: the rest is handed over again.
 
     **Site tags of the recorded defects go on the status token of the op whose RESULT the defect
     makes wrong, and nowhere else** (a known finding waives a specification mismatch only at an op
@@ -20,7 +30,8 @@ import H3.Spec.Dyn
       eviction of unacknowledged insertions no section can be that far ahead;
     * consequences: once a tagged `deliverBlock` has left the stream's queue of the model and of
       the oracle out of step (one of them took the section, the other did not), every later
-      `deliverBlock` of THAT stream carries the same tag. -/
+      `deliverBlock` of THAT stream carries the same tag;
+    * `#D-20f` on a cut `deliverEnc` that leaves an instruction it was handed completely unprocessed. -/
 namespace H3.Drv.C20
 open H3.Drv H3.Dyn
 open H3.Spec.Dyn (STable)
@@ -37,6 +48,26 @@ def parseField (s : String) : Option Field :=
 
 def parseFields (s : String) : Option (List Field) :=
   if s == "" || s == "-" then some [] else (s.splitOn ",").mapM parseField
+
+def parseCut (s : String) : Option (Nat × Nat) :=
+  match s.splitOn "." with
+  | [j, m] => do
+    let j ← j.toNat?
+    let m ← m.toNat?
+    pure (j, m)
+  | _ => none
+
+/-- `denc:<k>@<cuts>` -/
+def parseDencCut (s : String) : Option (Event × Option (List (Nat × Nat))) :=
+  match s.splitOn ":" with
+  | ["denc", kc] =>
+    match kc.splitOn "@" with
+    | [k, cs] => do
+      let k ← k.toNat?
+      let cuts ← ((cs.splitOn ",").filter (· != "")).mapM parseCut
+      pure (.deliverEnc k, some cuts)
+    | _ => none
+  | _ => none
 
 def parseOp (s : String) : Option Event :=
   match s.splitOn ":" with
@@ -135,9 +166,10 @@ def monitor (s : Sys) : String :=
   (if s.streams.any fun (_, st) => ((st.done ++ st.todo).drop st.npop).any fun b => b.refs.any (· ≤ s.enc.vas.dropped)
    then "!evi" else "")
 
-/-- state mark `~20d` -/
+/-- state marks `~20d`, `~blk<n>` -/
 def tags (s : Sys) : String :=
-  if s.enc.vas.dropped > s.dec.vas.inserted then "~20d" else ""
+  (if s.enc.vas.dropped > s.dec.vas.inserted then "~20d" else "") ++
+  (if atRisk s > s.enc.blockedMax then s!"~blk{atRisk s}" else "")
 
 /-- state mark `~20c` for `deliverBlock sid` in state `s` -/
 def mark20c (s : Sys) (sid : Nat) : String :=
@@ -191,10 +223,15 @@ structure Acc where
   model : List String := []
   spec : List String := []
 
-def runOps (cap : Nat) : Sys → Oracle → List Event → Acc → Acc
+def runOps (cap : Nat) : Sys → Oracle → List (Event × Option (List (Nat × Nat))) → Acc → Acc
   | s, _, [], acc =>
     { model := acc.model ++ [s!"end {showTable s.enc} {showTable s.dec}"], spec := acc.spec ++ ["end * *"] }
-  | s, o, ev :: rest, acc =>
+  | s, o, (ev0, cuts) :: rest, acc =>
+    -- a cut delivery is a whole delivery of the instructions in front of the first one with a cut inside (`stepCut`)
+    let handed : Nat := match ev0 with | .deliverEnc k => (s.handed k).length | _ => 0
+    let ev : Event := match ev0, cuts with
+      | .deliverEnc k, some cs => .deliverEnc (cutLen (s.handed k) cs)
+      | e, _ => e
     -- the oracle's expectation for this op (status token), before looking at the model's answer
     let expectB : Nat → String × String := fun sid =>
       if o.cancelled.contains sid then ("B:skip", "-") else
@@ -243,8 +280,9 @@ def runOps (cap : Nat) : Sys → Oracle → List Event → Acc → Acc
         let o1 := { o with delivered := o.delivered + n }
         let o2 := { o1 with specD := o1.replayD cap }
         let incS := match inc with | some k => toString k | none => "-"
+        let (status, left) := if n < handed then (s!"X:stall{m}#D-20f", s!"i{handed - n}") else (s!"X:ok{m}", "0")
         runOps cap s1 o2 rest
-          { model := acc.model ++ [s!"X:ok{m}", s!"n={n};t={total};inc={incS};left=0", dash tg],
+          { model := acc.model ++ [status, s!"n={n};t={total};inc={incS};left={left}", dash tg],
             spec := acc.spec ++ ["X:ok", "*", "*"] }
       | .deliverBlock sid, out =>
         let (es, ed) := expectB sid
@@ -277,7 +315,7 @@ def runOps (cap : Nat) : Sys → Oracle → List Event → Acc → Acc
 
 def handle : List String → String
   | "dyn" :: cap :: bl :: ops =>
-    match cap.toNat?, bl.toNat?, ops.mapM parseOp with
+    match cap.toNat?, bl.toNat?, ops.mapM (fun o => (parseDencCut o).orElse fun _ => (parseOp o).map (·, none)) with
     | some cap, some bl, some evs =>
       match Sys.init cap bl with
       | .ok s =>
